@@ -327,10 +327,21 @@ def catv_protocol(ctx, m, off, names, rep):
         if vs and not fn.idominates(cp, vs[0]):
             probs.append('va_copy does not precede the first formatter call')
     sm = [i for c, i in calls if c in ('a_str_setm_', 'a_str_setm')]
-    if len(sm) != 1:
+    if len(sm) < 1:
         probs.append('%d grow calls' % len(sm))
     elif len(vs) == 2:
-        if not (fn.idominates(vs[0], sm[0]) and fn.idominates(sm[0], vs[1])):
+        # measure -> grow (one request, or a generous one with the exact need as fallback) -> format: every grow call comes behind the
+        # measuring call, and the formatting call is not reached from it without passing one
+        smb = set(i.block for i in sm)
+        seen_, todo_ = set(), [vs[0].block] if vs[0].block not in smb else []
+        while todo_:
+            b_ = todo_.pop()
+            if b_ in seen_ or b_ in smb:
+                continue
+            seen_.add(b_)
+            todo_.extend(b_.succs)
+        around = vs[1].block in seen_ and vs[1].block is not vs[0].block
+        if not all(fn.idominates(vs[0], i) for i in sm) or around:
             probs.append('order is not measure -> grow -> format')
         # both formatter calls receive the same format argument
         if vs[0].ops[2].key() != vs[1].ops[2].key():
